@@ -440,6 +440,70 @@ remotePort = 7002
 	got, terr := config.RenderWithTemplate([]byte(tpl), &config.Values{Envs: map[string]string{"VERIF_TPL_HOST": "10.1.2.3", "VERIF_TPL_PORT": "7001"}})
 	sink.Emit("drv", "cfg.template", "ok", terr == nil && string(got) == want)
 	stats["template"]++
+	// (g) number-range literals through the template helpers: segments in any order, single numbers, repeated and
+	// overlapping numbers; the pair helper couples two literals by position
+	genSegs := func(n int) ([][]int, string, int) {
+		var segs [][]int
+		var parts []string
+		total := 0
+		for i := 0; i < n; i++ {
+			lo := 1000 + rnd.Intn(9000)
+			if len(segs) > 0 && rnd.Intn(4) == 0 {
+				lo = segs[rnd.Intn(len(segs))][0] // repeated / overlapping
+			}
+			hi := lo
+			if rnd.Intn(2) == 0 {
+				hi = lo + rnd.Intn(4)
+				parts = append(parts, fmt.Sprintf("%d-%d", lo, hi))
+			} else {
+				parts = append(parts, fmt.Sprintf("%d", lo))
+			}
+			segs = append(segs, []int{lo, hi})
+			total += hi - lo + 1
+		}
+		return segs, strings.Join(parts, ","), total
+	}
+	for i := 0; i < 60; i++ {
+		sa, la, na := genSegs(1 + rnd.Intn(4))
+		// the second literal: mostly as long as the first
+		var sb [][]int
+		var lb string
+		nb := -1
+		for try := 0; try < 50 && nb != na; try++ {
+			sb, lb, nb = genSegs(1 + rnd.Intn(4))
+			if i%6 == 5 {
+				break
+			}
+		}
+		if nb != na && i%6 != 5 {
+			sb, lb = [][]int{{20000, 20000 + na - 1}}, fmt.Sprintf("20000-%d", 20000+na-1)
+		}
+		tp := fmt.Sprintf(`{{ range $_, $v := parseNumberRangePair "%s" "%s" }}{{ $v.First }}:{{ $v.Second }};{{ end }}`, la, lb)
+		out, rerr := config.RenderWithTemplate([]byte(tp), &config.Values{})
+		pairs := [][]int{}
+		if rerr == nil {
+			for _, it := range strings.Split(strings.TrimSuffix(string(out), ";"), ";") {
+				var f, sd int
+				if _, e := fmt.Sscanf(it, "%d:%d", &f, &sd); e == nil {
+					pairs = append(pairs, []int{f, sd})
+				}
+			}
+		}
+		sink.Emit("drv", "cfg.range", "pair", true, "lit_a", la, "lit_b", lb, "segs_a", sa, "segs_b", sb, "err", rerr != nil, "pairs", pairs, "numbers", []int{})
+		tp = fmt.Sprintf(`{{ range $_, $v := parseNumberRange "%s" }}{{ $v }};{{ end }}`, la)
+		out, rerr = config.RenderWithTemplate([]byte(tp), &config.Values{})
+		nums := []int{}
+		if rerr == nil {
+			for _, it := range strings.Split(strings.TrimSuffix(string(out), ";"), ";") {
+				var f int
+				if _, e := fmt.Sscanf(it, "%d", &f); e == nil {
+					nums = append(nums, f)
+				}
+			}
+		}
+		sink.Emit("drv", "cfg.range", "pair", false, "lit_a", la, "lit_b", "", "segs_a", sa, "segs_b", [][]int{}, "err", rerr != nil, "pairs", [][]int{}, "numbers", nums)
+		stats["range"] += 2
+	}
 	sink.Close()
 	fmt.Printf("STATS traces=1 events=%d", sink.N)
 	ks := []string{}
